@@ -56,7 +56,121 @@ fn check(cfg: usize, n_unannotated: usize, partial: bool) -> Option<String> {
     r.map(|d| format!("{{\"replay_arg\":{},\"config\":{},\"actual\":{}}}", crate::js(&arg), crate::js(&format!("{:?}", CONFIGS[cfg])), crate::js(&d)))
 }
 
+// ---- full reference of the training problem through the verification hook (Trainer::verif_examples, cfg vaporetto_verif) ----
+#[cfg(vaporetto_verif)]
+mod full {
+    use vaporetto::{CharacterBoundary as B, Sentence, Trainer};
+
+    const WORDS: [&str; 8] = ["あいう", "いうえ", "あいうえ", "いうえお", "う", "ab", "b", "abcab"];
+    const SENTS: [&str; 8] = ["あ-い|う え-お", "あ-い-う-え", "a-b|c-a-b", "う|う|う", "あ|い", "x", "a b c", "あ-い-う-え-お|a-b-c-a-b"];
+
+    /// the examples the statement demands for one sentence
+    fn expected(s: &Sentence, cfg: (u8, u8, u8, u8), words: &[&str], max_len: u8) -> Vec<(Vec<(String, f64)>, f64)> {
+        let (cw, cn, tw, tn) = (cfg.0 as isize, cfg.1 as isize, cfg.2 as isize, cfg.3 as isize);
+        let chars: Vec<char> = s.as_raw_text().chars().collect();
+        let types = s.char_types();
+        let n = chars.len() as isize;
+        let mut out = vec![];
+        for (i, b) in s.boundaries().iter().enumerate() {
+            if *b == B::Unknown {
+                continue;
+            }
+            let i = i as isize;
+            let mut feats: Vec<String> = vec![];
+            // n-grams of length 1..N lying inside the window [i+1-w, i+1+w) of the boundary, relative position of their start
+            for l in 1..=cn {
+                for j in 0..n {
+                    if j >= i + 1 - cw && j + l <= (i + 1 + cw).min(n) {
+                        let g: String = chars[j as usize..(j + l) as usize].iter().collect();
+                        feats.push(format!("C:{}:{}", g, j - i - 1));
+                    }
+                }
+            }
+            for l in 1..=tn {
+                for j in 0..n {
+                    if j >= i + 1 - tw && j + l <= (i + 1 + tw).min(n) {
+                        feats.push(format!("T:{:?}:{}", &types[j as usize..(j + l) as usize], j - i - 1));
+                    }
+                }
+            }
+            // one dictionary feature per dictionary-word occurrence touching the boundary
+            for w in words {
+                let wc: Vec<char> = w.chars().collect();
+                let wl = wc.len() as isize;
+                for st in 0..=(n - wl).max(-1) {
+                    if st < 0 || chars[st as usize..(st + wl) as usize] != wc[..] {
+                        continue;
+                    }
+                    let len = wl.min(max_len as isize);
+                    let en = st + wl; // exclusive end
+                    if i == st - 1 {
+                        feats.push(format!("D:Left:{}", len));
+                    } else if st <= i && i < en - 1 {
+                        feats.push(format!("D:Inside:{}", len));
+                    } else if i == en - 1 {
+                        feats.push(format!("D:Right:{}", len));
+                    }
+                }
+            }
+            feats.sort();
+            let mut row: Vec<(String, f64)> = vec![];
+            for f in feats {
+                match row.last_mut() {
+                    Some(last) if last.0 == f => last.1 += 1.0,
+                    _ => row.push((f, 1.0)),
+                }
+            }
+            out.push((row, if *b == B::WordBoundary { 1.0 } else { 0.0 }));
+        }
+        out
+    }
+
+    pub fn check(code: usize) -> Option<String> {
+        // code = configuration index * 4 + dictionary setting
+        let cfgs: [(u8, u8, u8, u8); 7] = [(1, 1, 1, 1), (2, 2, 2, 2), (3, 2, 1, 3), (2, 3, 3, 1), (1, 3, 2, 2), (3, 3, 3, 3), (1, 1, 3, 2)];
+        let cfg = cfgs[(code / 4) % cfgs.len()];
+        let (words, max_len): (Vec<&str>, u8) = match code % 4 {
+            0 => (vec![], 0),
+            1 => (WORDS.to_vec(), 1),
+            2 => (WORDS.to_vec(), 2),
+            _ => (WORDS.to_vec(), 4),
+        };
+        let sents: Vec<Sentence> = SENTS.iter().map(|l| Sentence::from_partial_annotation(l).unwrap()).collect();
+        let mut t = match Trainer::new(cfg.0, cfg.1, cfg.2, cfg.3, words.iter().map(|w| w.to_string()).collect(), max_len, &[]) {
+            Ok(t) => t,
+            Err(e) => return Some(format!("Trainer::new fails: {}", e)),
+        };
+        let mut want = vec![];
+        for s in &sents {
+            t.add_example(s);
+            want.extend(expected(s, cfg, &words, max_len));
+        }
+        let got = t.verif_examples();
+        if got.len() != want.len() {
+            return Some(format!("{} examples handed to the learner, the annotated boundaries are {}", got.len(), want.len()));
+        }
+        for (k, (g, w)) in got.iter().zip(&want).enumerate() {
+            if g != w {
+                return Some(format!("example {} (config {:?}, dictionary bucket {}): expected {:?}, the trainer built {:?}", k, cfg, max_len, w, g));
+            }
+        }
+        None
+    }
+}
+
 pub fn search() -> Option<String> {
+    #[cfg(vaporetto_verif)]
+    for code in 0..28 {
+        let arg = format!("full:{}", code);
+        crate::mark(&arg);
+        let r = match std::panic::catch_unwind(move || full::check(code)) {
+            Ok(r) => r,
+            Err(_) => Some("panic in Trainer::add_example".to_string()),
+        };
+        if let Some(d) = r {
+            return Some(format!("{{\"replay_arg\":{},\"actual\":{}}}", crate::js(&arg), crate::js(&d)));
+        }
+    }
     for cfg in 0..CONFIGS.len() {
         for n in 1..=UNANNOTATED.len() {
             for partial in [false, true] {
@@ -70,6 +184,22 @@ pub fn search() -> Option<String> {
 }
 
 pub fn replay(input: &str) -> Option<String> {
+    if let Some(code) = input.strip_prefix("full:") {
+        #[cfg(vaporetto_verif)]
+        {
+            let code: usize = code.parse().unwrap();
+            let r = match std::panic::catch_unwind(move || full::check(code)) {
+                Ok(r) => r,
+                Err(_) => Some("panic in Trainer::add_example".to_string()),
+            };
+            return r.map(|d| format!("{{\"replay_arg\":{},\"actual\":{}}}", crate::js(input), crate::js(&d)));
+        }
+        #[cfg(not(vaporetto_verif))]
+        {
+            let _ = code;
+            return None;
+        }
+    }
     let p: Vec<usize> = input.split(':').map(|x| x.parse().unwrap()).collect();
     check(p[0], p[1], p[2] != 0)
 }
